@@ -363,7 +363,7 @@ Proof.
   - (* ECDH *) unfold c_ecdh. apply (obj_total ecdh_fields). unfold ecdh_fields. tot_fields.
   - (* RSAPub *) unfold c_rsapub, rsapub_dec. cbn [dec]. apply rbind_total.
     + apply (obj_total rsapub_fields). unfold rsapub_fields, k_i64.
-      apply tot_cons; [intros [[]|]; discriminate|]. tot_fields.
+      apply tot_cons; [intros [[]|]; simpl; try discriminate; destruct (json_int_lit s); discriminate|]. tot_fields.
     + intros [[e|] [m [l ?]]]; [|discriminate]. destruct (Z.eqb _ l); discriminate.
   - (* RSAClient *) unfold c_rsaclient. apply (obj_total rsaclient_fields). unfold rsaclient_fields, k_u16. tot_fields.
   - (* ATV *) unfold c_atv. cbn [dec]. apply rbind_total.
